@@ -1,5 +1,6 @@
 """C17: low-entropy codec lossless, canonical, identical on every CPU path (DESIGN.md 7/C17)."""
 from vlib import run_pair
+from xl import xl_pair, xl_search
 
 PID = "C17"
 MODEL_VOS = ["base/Bits64.vo", "model/LowEntropy.vo"]
@@ -13,11 +14,14 @@ ASSUMPTIONS = [
 
 
 def run(ctx):
-    return [run_pair(ctx, "c17", PID, MODEL_VOS)]
+    # xl: the real pdepGeneric / pextGeneric / RepeatUint32 vs their translation (validates the translator), and the
+    # translation vs the model functions of base/Bits64.v on the same inputs
+    return [run_pair(ctx, "c17", PID, MODEL_VOS), xl_pair(ctx, "c17")]
 
 
 def search(ctx):
-    return [run_pair(ctx, "c17", PID, None, tier="thorough", seed=ctx.seed + 1000 + i, subdir="search%d" % i) for i in range(2)]
+    return xl_search(ctx, "c17") + \
+        [run_pair(ctx, "c17", PID, None, tier="thorough", seed=ctx.seed + 1000 + i, subdir="search%d" % i) for i in range(2)]
 
 MANIFEST = dict(
     text="Theorems over the Bits64/LowEntropy model (PDEP/PEXT structurally, as the index-by-index Intel SDM pseudo code and as the portable Go loops, the three proved equal for every x and every 64-bit mask, chunk-mask rotation, encoder, decoder, metadata validation) proved for every body of 1..8191 chunks, every mode, every half mask of the mode's weight, all 31 rotations and both padding polarities: round trip, encoded size, canonicity of every accepted stream, rejection of invalid parameters/lengths/mixed padding, metadata ties the two lengths and agrees with Wire.v's (C09) unmarshal validity for types 10/11; constants regenerated from /repo; the model's executable definitions are compared with pkg/protocol and pkg/mathext (portable and BMI2 paths) on structured inputs, a malformed stream and >= 10^6 PDEP/PEXT pairs, and every case is also judged against docs/protocol.md and the Intel pseudo code by references written in the driver.",
